@@ -33,6 +33,7 @@ mod rng;
 mod sexp;
 mod util;
 mod unify;
+mod solve;
 
 fn main() {
     let argv: Vec<String> = std::env::args().collect();
@@ -66,6 +67,7 @@ fn main() {
         "dce" => dce::main(&args),
         "gocomp" => gocomp::main(&args),
         "unify" => unify::main(&args),
+        "solve" => solve::main(&args),
         "probe" => probe::main(&args),
         "stages" => probe::stages(&args),
         "golden" => probe::golden(&args),
